@@ -147,6 +147,24 @@ pub mod verif_hooks {
         super::multinomial(rng, probs)
     }
 
+    /// Leave `vals` behind in the (logically empty) scratch buffer of `sampler`, as an
+    /// earlier `sample` call would.
+    pub fn poison_scratch(sampler: &super::Multinomial, vals: &[f32]) {
+        let mut scratch = sampler.scratch.borrow_mut();
+        scratch.clear();
+        scratch.extend_from_slice(vals);
+        scratch.clear();
+    }
+
+    /// `softmax_probs` computed into a destination buffer whose memory previously held `stale`.
+    pub fn softmax_probs_stale_dst(logits: &[f32], stale: &[f32]) -> Vec<f32> {
+        let mut scratch: Vec<f32> = stale.to_vec();
+        scratch.clear();
+        scratch.reserve(logits.len());
+        let out = &mut scratch.spare_capacity_mut()[..logits.len()];
+        Softmax::new(logits, out).dispatch().to_vec()
+    }
+
     /// Probabilities exactly as `Multinomial::sample` computes them.
     pub fn softmax_probs(logits: &[f32]) -> Vec<f32> {
         let mut scratch: Vec<f32> = Vec::with_capacity(logits.len());
